@@ -11,7 +11,7 @@ CONSTANTS
   Grain = "op"
   Weaken = "none"
   Stale = FALSE
-  ReadFaults = FALSE
+  ReadFaults = TRUE
 INVARIANT DbMatchesRules
 INVARIANT KeysMatchRules
 INVARIANT MemMatchesDb
